@@ -128,7 +128,7 @@ pub fn check(rep: &Reporter) {
 					rep.violation(&format!("limit-changes-acceptance:{tname}:{feat}"), &format!("L={l}: handlers run {:?}, expected {exp_handlers:?}", o.handlers), case.clone());
 				}
 				local.case_unique(&format!("single:{tname}:{class}"));
-				if l == 100 && n == 1 && tname == "ws" && si == 0 {
+				if i % 613 == 0 && tname == "ws" {
 					rep.sample(case);
 				}
 			}
